@@ -50,6 +50,13 @@ func (g *Gen) dateCriteria() *baskettypes.DateCriteria {
 		return nil
 	case 1:
 		d := g.date()
+		// aim the criterion at an existing batch's start date (exactly, or a nanosecond / second off)
+		if len(g.V.BatchList) > 0 && g.chance(0.5) {
+			b := g.V.BatchList[g.R.Intn(len(g.V.BatchList))]
+			if b.StartDate != nil {
+				d = b.StartDate.AsTime().Add([]time.Duration{0, time.Nanosecond, -time.Nanosecond, time.Second, -time.Second}[g.R.Intn(5)])
+			}
+		}
 		if d.Year() < 1900 && !g.hostile() {
 			d = time.Date(1900, 1, 1, 0, 0, 0, 0, time.UTC)
 		}
@@ -131,7 +138,66 @@ func (g *Gen) basket() *basketapi.Basket {
 	return b
 }
 
+// nearBoundaryPut looks for a (basket, batch, holder) whose batch start is within a second of the
+// basket's date criterion evaluated now.
+func (g *Gen) nearBoundaryPut() *eng.Tx {
+	type cand struct {
+		bk    *basketapi.Basket
+		denom string
+		key   uint64
+	}
+	var cs []cand
+	for _, bk := range g.V.BasketList {
+		c := bk.DateCriteria
+		if c == nil {
+			continue
+		}
+		var min time.Time
+		switch {
+		case c.MinStartDate != nil:
+			min = c.MinStartDate.AsTime()
+		case c.StartDateWindow != nil:
+			if c.StartDateWindow.Seconds > 9_000_000_000 {
+				continue
+			}
+			min = g.Now.Add(-c.StartDateWindow.AsDuration())
+		case c.YearsInThePast != 0:
+			min = time.Date(g.Now.Year()-int(c.YearsInThePast), 1, 1, 0, 0, 0, 0, time.UTC)
+		default:
+			continue
+		}
+		for _, b := range g.V.BatchList {
+			if b.StartDate == nil {
+				continue
+			}
+			d := b.StartDate.AsTime().Sub(min)
+			if d < 0 {
+				d = -d
+			}
+			if d <= time.Second {
+				cs = append(cs, cand{bk, b.Denom, b.Key})
+			}
+		}
+	}
+	if len(cs) == 0 {
+		return nil
+	}
+	c := cs[g.R.Intn(len(cs))]
+	for _, a := range g.A {
+		t, _, _ := g.V.BalOf(a, c.key)
+		if t.Sign() > 0 {
+			return tx(&baskettypes.MsgPut{Owner: a, BasketDenom: c.bk.BasketDenom, Credits: []*baskettypes.BasketCredit{{BatchDenom: c.denom, Amount: g.amountUpTo(new(big.Rat).Quo(t, big.NewRat(4, 1)))}}})
+		}
+	}
+	return nil
+}
+
 func (g *Gen) genPut() *eng.Tx {
+	if g.chance(g.P.Boundary) {
+		if t := g.nearBoundaryPut(); t != nil {
+			return t
+		}
+	}
 	bk := g.basket()
 	if bk == nil {
 		return nil
